@@ -79,16 +79,37 @@ theorem string_field_roundtrip (F : FloatCodec) (s : Bytes) :
     unescStr (escStr s) = s ∧ parseFV F (renderFV F (.str s)) = some (.str s) :=
   ⟨unescStr_escStr s, parseFV_render_str F s⟩
 
-/-- **types_preserved_stream (booleans)**. Integers (`<digits>i`) and floats (`strconv` text) are covered by the
-hypothesis `LPLaw` of `stream_replay_faithful` and by the correspondence run, not by a theorem of their own. -/
+/-- **types_preserved_stream (booleans)**. -/
 theorem bool_field_roundtrip (F : FloatCodec) (b : Bool) : parseFV F (renderFV F (.bool b)) = some (.bool b) :=
   parseFV_render_bool F b
 
-/-- Full statement for all four field types (stated, not proved: the int case needs a decimal round-trip lemma, the
-float case is `strconv`). -/
-def value_roundtrip_stmt : Prop :=
-  ∀ (F : FloatCodec), (∀ b, F.parse (F.fmt b) = some b) → ∀ v : FV,
-    (∀ i, v = .int i → -(2:Int)^63 ≤ i ∧ i < (2:Int)^63) → parseFV F (renderFV F v) = some v
+/-- **Decimal round trip**: `strconv.FormatInt(v, 10)` parsed back gives `v`, for EVERY integer. -/
+theorem decimal_roundtrip (v : Int) : Kap.C18.parseInt? (intDigits v) = some v := parseInt?_intDigits v
+
+/-- **types_preserved_stream (integers)**: every int64 — beyond 2^53, MinInt64, MaxInt64 — is written as
+`<decimal>i` and read back as the same INTEGER (never as a float). -/
+theorem int_field_roundtrip (F : FloatCodec) (v : Int) (hr : -(2:Int)^63 ≤ v ∧ v < (2:Int)^63) :
+    parseFV F (renderFV F (.int v)) = some (.int v) :=
+  parseFV_render_int F v hr
+
+/-- **types_preserved_stream, all four field types**: the value parser applied to what `appendField` wrote gives the
+value back with its type. Floats: parametrically in the law of the external float codec for that bit pattern
+(`FloatLaw`: the text is a number — no leading quote, no trailing `i`, not a boolean literal — and parses back to the
+same bits; true of `strconv` 'f' -1 / `ParseFloat` for every finite float64, exercised by the correspondence run). -/
+theorem value_roundtrip (F : FloatCodec) (v : FV)
+    (hint : ∀ i, v = .int i → -(2:Int)^63 ≤ i ∧ i < (2:Int)^63)
+    (hfloat : ∀ b, v = .float b → FloatLaw F b) :
+    parseFV F (renderFV F v) = some v := by
+  cases v with
+  | float b => exact parseFV_render_float F b (hfloat b rfl)
+  | int i => exact parseFV_render_int F i (hint i rfl)
+  | str s => exact parseFV_render_str F s
+  | bool b => exact parseFV_render_bool F b
+
+/-- Non-vacuity of `FloatLaw`: the example codec satisfies it for 1.5. -/
+example : FloatLaw ⟨fun b => if b = 0x3ff8000000000000 then [49, 46, 53] else [],
+                    fun s => if s = [49, 46, 53] then some 0x3ff8000000000000 else none⟩ 0x3ff8000000000000 := by
+  refine ⟨⟨49, [46, 53], by decide, by decide⟩, by decide, by decide, by decide⟩
 
 /-- A line feed reaches the recorded line only from the point's own strings (measurement, tag keys/values, field
 keys, string field values): the escaping functions never add or remove one, numbers and booleans have none. So the
